@@ -138,6 +138,9 @@ func compareSkeleton(base, test []sTok, plain, spelled, want string, esc func(st
 	if len(base) != len(test) {
 		return fmt.Sprintf("the statement has %d tokens with the content and %d with a plain one", len(test), len(base))
 	}
+	// generated names (subqueries, aliases) may be chosen differently when the content happens to be such a name:
+	// quoted names that differ are accepted when they are renamed consistently and one-to-one, and not to the content
+	rename, taken := map[string]string{}, map[string]string{}
 	for i := range base {
 		if base[i].K != test[i].K {
 			return fmt.Sprintf("token %d is %s %q with the content and %s %q with a plain one", i, test[i].K, test[i].V, base[i].K, base[i].V)
@@ -153,9 +156,22 @@ func compareSkeleton(base, test []sTok, plain, spelled, want string, esc func(st
 			if exp := strings.ReplaceAll(base[i].V, marker, want); test[i].V != exp {
 				return fmt.Sprintf("token %d (%s) decodes to %q, expected %q", i, test[i].K, test[i].V, exp)
 			}
+		case base[i].K == "qid" && base[i].V != test[i].V:
+			to, seen := rename[base[i].V]
+			from, used := taken[test[i].V]
+			if (seen && to != test[i].V) || (used && from != base[i].V) || test[i].V == want {
+				return fmt.Sprintf("token %d (%s) changed from %q to %q", i, base[i].K, base[i].V, test[i].V)
+			}
+			rename[base[i].V], taken[test[i].V] = test[i].V, base[i].V
 		default:
 			if base[i].V != test[i].V {
 				return fmt.Sprintf("token %d (%s) changed from %q to %q", i, base[i].K, base[i].V, test[i].V)
+			}
+			if base[i].K == "qid" {
+				if to, seen := rename[base[i].V]; seen && to != test[i].V {
+					return fmt.Sprintf("token %d (%s) %q is renamed elsewhere in the statement", i, base[i].K, base[i].V)
+				}
+				rename[base[i].V], taken[test[i].V] = test[i].V, base[i].V
 			}
 		}
 	}
